@@ -185,6 +185,11 @@ def cases(tier, seed):
 
 
 def _fix(d):
+    # a clamp at 0 produces exact zeros: log 0 in both log-space semirings -> linear semiring only
+    if d["circuit"]["base"].get("weights") == "clamp01" and d["semiring"] != "sum-product":
+        d = dict(d)
+        d["semiring"] = "sum-product"
+        return d
     # derivatives take negative values: not representable in the real log-space semiring
     if d["semiring"] == "lse-sum" and (any(o[0] == "differentiate" for o in d["circuit"]["ops"]) or str(d["circuit"]["base"].get("input", "")).startswith("poly") or d["circuit"]["base"].get("weights") == "clamp01"):
         d = dict(d)
